@@ -8,7 +8,7 @@
 (*   FAIL|property|predicate|kind|class|line|case                           *)
 (* Acceptance: every line consumed (POSTCONDITION).                         *)
 (***************************************************************************)
-EXTENDS CalcProps, ParsProps, IndexProps, GenProps, Json
+EXTENDS CalcProps, ParsProps, IndexProps, GenProps, SampleProps, Json
 
 CONSTANT PROPS
 
@@ -28,7 +28,9 @@ RootedClass(Vs) == IF \E i \in 1..Len(Vs) : IsRooted(Vs[i]) THEN "rooted" ELSE "
 
 \* kinds whose call must succeed on in-domain input
 MustSucceed == {"DistMatrix", "AvgMatrix", "TipBags", "Compare", "CompareWeighted", "Consensus", "FBP", "TBE",
-                "Parsimony", "ParsimonySeq", "IndexOps", "HashPairs", "Quartets", "Generator", "Topologies"}
+                "Parsimony", "ParsimonySeq", "IndexOps", "HashPairs", "Quartets", "Generator", "Topologies", "Draws", "Shuffle"}
+\* kinds for which only "no crash, terminates" is claimed (degenerate sizes)
+OnlyTotal   == {"GeneratorTwoTips"}
 \* kinds whose call must be refused with an error (not a crash, not a success)
 MustRefuse  == {"ConsensusBadCutoff", "ConsensusBadTaxa", "FBPBadTaxa", "TBEBadTaxa", "GeneratorTooSmall"}
 
@@ -50,12 +52,14 @@ Judge(ev, Vs) ==
     [] ev.kind = "HashPairs"    -> F_HashPairs(ev.trees, Vs, ev.res)
     [] ev.kind = "Quartets"     -> F_Quartets(ev.args, ev.res)
     [] ev.kind = "Generator"    -> F_Generator(ev.out, ev.args, ev.res)
-    [] ev.kind = "Topologies"   -> F_Topologies(ev.args, ev.res)
+    [] ev.kind = "Topologies"   -> F_TopologiesOn(ev.trees, ev.args)
+    [] ev.kind = "Draws"        -> F_Draws(ev.args, ev.res)
+    [] ev.kind = "Shuffle"      -> F_Shuffle(ev.args, ev.res)
     [] OTHER -> {"UnknownKind"}
 
 Init == l = 1 /\ nfail = 0
 
-Step ==
+TraceStep ==
   /\ l <= Len(Trace)
   /\ l' = l + 1
   /\ LET ev == Trace[l]
@@ -67,11 +71,12 @@ Step ==
                   f   == IF ev.panic THEN {"NoCrash"}
                          ELSE IF ev.hang THEN {"Terminates"}
                          ELSE IF ev.kind \in MustRefuse THEN Fail("RejectedWithError", ~ev.ok)
+                         ELSE IF ev.kind \in OnlyTotal THEN {}
                          ELSE IF ~ev.ok THEN (IF ev.kind \in MustSucceed THEN {"UnexpectedError"} ELSE {})
                          ELSE Judge(ev, Vs)
               IN  Report(ev, cls, f) /\ nfail' = nfail + Cardinality(f)
 
-Spec == Init /\ [][Step]_vars
+Spec == Init /\ [][TraceStep]_vars
 
 Accepted ==
   /\ TLCGet("stats").diameter - 1 = Len(Trace)
